@@ -61,6 +61,8 @@ func (c CLICase) args() []string {
 		a = append(a, "-files", "*.txt")
 	case "subdir":
 		a = append(a, "-files", "sub/*.txt")
+	case "dirname":
+		a = append(a, "-files", "sub") // a directory is not a file: nothing to search
 	case "nomatch":
 		a = append(a, "-files", "*.nothing")
 	}
@@ -144,7 +146,7 @@ func checkCLICase(c CLICase) (sig, what string, nmatch int) {
 					lp = capturePanic(r)
 				}
 			}()
-			pattern := map[string]string{"one": "b.txt", "glob": "*.txt", "subdir": "sub/*.txt", "nomatch": "*.nothing"}[c.Files]
+			pattern := map[string]string{"one": "b.txt", "glob": "*.txt", "subdir": "sub/*.txt", "dirname": "sub", "nomatch": "*.nothing"}[c.Files]
 			fileList = files.ParsePath(pattern).GetFileList(dir)
 			var v *libvore.Vore
 			v, lerr = libvore.Compile(cliPrograms[c.Program])
@@ -296,7 +298,7 @@ func allCLICases() []CLICase {
 					for _, fjf := range []bool{false, true} {
 						for _, mode := range []string{"", "NEW", "NOTHING", "OVERWRITE", "BOGUS"} {
 							for _, no := range []bool{false, true} {
-								for _, fl := range []string{"one", "glob", "subdir", "nomatch", "absent"} {
+								for _, fl := range []string{"one", "glob", "subdir", "dirname", "nomatch", "absent"} {
 									out = append(out, CLICase{Program: prog, ViaSrc: src, JSON: jm&1 != 0, FJSON: jm&2 != 0, JSONFile: jf, FJSONFile: fjf, Mode: mode, NoOutput: no, Files: fl})
 								}
 							}
@@ -348,7 +350,7 @@ func TestC18Sample(t *testing.T) {
 func TestC18All(t *testing.T) {
 	seedNote(t)
 	StartWatchdog("C18", 120*time.Second)
-	st := NewStats("C18", "all", "exhaustive: all 6400 flag vectors of the cross product x 2 directory fixtures; same oracle")
+	st := NewStats("C18", "all", "exhaustive: all 7680 flag vectors of the cross product x 2 directory fixtures; same oracle")
 	st.Exhaustive = true
 	defer st.Write()
 	nshards := envInt("VERIF_NSHARDS", 1)
